@@ -202,15 +202,24 @@ def shape_fails(label, rows, outs, emp, b):
     return False
 
 
+def _chunk(ck, dates):
+    seen = set()
+    k = 0
+    for d in dates:
+        k += run_date(ck, d, seen) == "ok"
+    ck.extra["distinct_slices"] = ck.extra.get("distinct_slices", 0) + k
+
+
 def run(tier):
     ck = common.Check("C19", tier)
     classes, st = date_classes(tier)
-    seen = set()
-    n_ok = n_dup = 0
-    for first, rep in classes:
-        r = run_date(ck, rep, seen)
-        n_ok += r == "ok"
-        n_dup += r == "dup"
+    reps = [rep for first, rep in classes]
+    chunks = [reps[i::common.JOBS] for i in range(common.JOBS) if reps[i::common.JOBS]] if len(reps) > 1 else [reps]
+    if len(chunks) == 1:
+        _chunk(ck, chunks[0])
+    else:
+        common.run_parallel(ck, _chunk, chunks)
+    n_ok = ck.extra.get("distinct_slices", 0)
     ck.bounds = {"date_classes": len(classes), "distinct_slices": n_ok, "persons": 1,
                  "wage": "all non-negative reals (two copies)", "eps": "1e-6",
                  "window": "quick: 6 fixed dates >= 2015; thorough: every date region >= 2015-01-01 (concolic exploration, z3 coverage)"}
